@@ -893,7 +893,12 @@ def restart_roundtrip(real, st, generations=2):
     generation reports under the stage `second-restart`."""
     r = ("ok", None, None, None)
     for gen in range(generations):
+        prev = r
         r = _restart_roundtrip_once(real, st)
+        if gen > 0 and r[0] == "none" and st.cstep >= st.tsteps:
+            # a restart that made no step and has no step left is refused by design (setup_config returns None,
+            # /repo 62f494c): the first generation's result stands
+            return prev[:4]
         if r[0] != "ok" or r[1] != r[2] or r[3] is not None or r[4] is None:
             if gen > 0 and r[3] is not None:
                 return r[0], r[1], r[2], "second-restart:" + r[3]
